@@ -41,6 +41,13 @@ func checkC02(c *Check) {
 	// … whose endpoints and keys come from the filter's own discovery document, fetched over the filter's own
 	// transport (TLS settings of another filter would let an unauthenticated peer answer the token request)
 	discoveryCacheKeyRule(c, "C02.R5")
+	discoveryFillsEndpoints(c, "C02.R5")
+	// … over a TLS configuration that is this filter's own: the pool key covers every TLS setting (C20.R4)
+	if c.ID == "C02" {
+		importObls(c, "C20", checkC20, "C02.R5", func(o *Obligation) bool {
+			return strings.HasPrefix(o.Key, "C20.R4/hash-consumes-every-field") || strings.HasPrefix(o.Key, "C20.R4/id-is-hash-of-settings") || strings.HasPrefix(o.Key, "C20.R4/key-reads-every-setting")
+		})
+	}
 	transportIsOwn(c, "C02.R5")
 }
 
